@@ -227,9 +227,13 @@ pub fn gen_bset_mask<const B: usize>(s: &mut dyn Src) -> BoundedSet<B, u8> {
 
 pub struct Report {
    pub failed: Vec<&'static str>,
+   /// decoded input values (native replay only)
+   pub notes: Vec<String>,
 }
 impl Report {
-   pub fn new() -> Self { Report { failed: vec![] } }
+   pub fn new() -> Self { Report { failed: vec![], notes: vec![] } }
+   #[cfg(not(kani))]
+   pub fn note(&mut self, s: String) { if self.notes.len() < 8 { self.notes.push(s); } }
    pub fn check(&mut self, name: &'static str, ok: bool) {
       if !ok && !self.failed.contains(&name) {
          self.failed.push(name);
@@ -477,6 +481,8 @@ macro_rules! laws3 {
       let a = <$t>::gen($s);
       let b = <$t>::gen($s);
       let c = <$t>::gen($s);
+      #[cfg(not(kani))]
+      $r.note(format!("a = {:?}, b = {:?}, c = {:?}", a, b, c));
       lattice_laws::<$t>($r, a, b, c);
    }};
 }
@@ -484,6 +490,8 @@ macro_rules! laws2 {
    ($s:ident, $r:ident, $t:ty) => {{
       let a = <$t>::gen($s);
       let b = <$t>::gen($s);
+      #[cfg(not(kani))]
+      $r.note(format!("a = {:?}, b = {:?}", a, b));
       lattice_laws_pairs::<$t>($r, a, b);
    }};
 }
@@ -492,12 +500,16 @@ macro_rules! assoc3 {
       let a = <$t>::gen($s);
       let b = <$t>::gen($s);
       let c = <$t>::gen($s);
+      #[cfg(not(kani))]
+      $r.note(format!("a = {:?}, b = {:?}, c = {:?}", a, b, c));
       assoc_laws::<$t>($r, a, b, c);
    }};
 }
 macro_rules! bounded1 {
    ($s:ident, $r:ident, $t:ty) => {{
       let a = <$t>::gen($s);
+      #[cfg(not(kani))]
+      $r.note(format!("a = {:?}", a));
       bounded_laws::<$t>($r, a);
    }};
 }
